@@ -116,17 +116,17 @@ def run_check(prop, P, args):
     disagreements = []
     second = {}
     if tier == "thorough":
-        for r in results:
-            for o in r["obligations"]:
-                p = o.get("smt2")
-                if not p:
-                    continue
-                for which in ("z3old", "cvc5"):
-                    ans = second_opinion(p, which)
-                    second.setdefault(which, {}).setdefault(ans, 0)
-                    second[which][ans] += 1
-                    if o["status"] == "unsat" and ans == "sat":
-                        disagreements.append((o["name"], which))
+        from concurrent.futures import ThreadPoolExecutor
+        tasks = [(o, which) for r in results for o in r["obligations"] if o.get("smt2") for which in ("z3old", "cvc5")]
+        budget = int(os.environ.get("VERIF_SECOND_TIMEOUT", "10"))
+        with ThreadPoolExecutor(max_workers=16) as pool:
+            answers = list(pool.map(lambda t: second_opinion(t[0]["smt2"], t[1], budget), tasks))
+        for (o, which), ans in zip(tasks, answers):
+            ans = ans if ans in ("sat", "unsat", "unknown", "timeout") else "error"
+            second.setdefault(which, {}).setdefault(ans, 0)
+            second[which][ans] += 1
+            if o["status"] == "unsat" and ans == "sat":
+                disagreements.append((o["name"], which))
 
     if args.rebaseline:
         if failed or errors:
